@@ -122,4 +122,29 @@ theorem others_survive (out es : List Entry) (e : Entry) (he : e ∈ es) (hnot :
 
 #print axioms prewrite_failure_untouched
 #print axioms others_survive
+/-! line protocol: `cli <clean 0|1> <failing stage | none> <out names a,b,…> <entries name:d|f:content,… | absent | empty>`
+    ↦ exit code and the directory afterwards (written files get content 99) -/
+def parseStage (s : String) : Option Stage :=
+  match s with
+  | "flags" => some .flags | "config" => some .config | "specRead" => some .specRead | "yamlParse" => some .yamlParse
+  | "specValidate" => some .specValidate | "irBuild" => some .irBuild | "routeBuild" => some .routeBuild
+  | "readDir" => some .readDir | "clean" => some .clean | "mkdir" => some .mkdir | "write" => some .write
+  | _ => none
+def parseEntries (s : String) : Dir :=
+  if s == "absent" then none else if s == "empty" then some [] else
+  some ((s.splitOn ",").filterMap fun e => match e.splitOn ":" with
+    | [n, k, c] => some ⟨n, k == "d", c.toNat!⟩ | _ => none)
+def showDir : Dir → String
+  | none => "absent"
+  | some [] => "empty"
+  | some es =>
+    let items := es.map fun e => e.name ++ ":" ++ (if e.isDir then "d" else "f") ++ ":" ++ toString e.content
+    ",".intercalate (items.mergeSort (fun a b => a ≤ b))
+def cliLine (line : String) : String :=
+  match (line.splitOn " ").filter (· ≠ "") with
+  | [cl, st, outs, ents] =>
+    let out : List Entry := if outs == "-" then [] else (outs.splitOn ",").map fun n => ⟨n, false, 99⟩
+    let (rc, d) := run (cl == "1") (parseStage st) out (parseEntries ents)
+    toString rc ++ " " ++ showDir d
+  | _ => "bad"
 end Cli
